@@ -151,7 +151,9 @@ def parse(text, harnesses):
                 s = vm.group(1).strip()
                 vals.append([int(x) for x in s.split(",") if x.strip()] if s else [])
             tests.append({"kind": kind, "desc": desc, "vals": vals})
-        r["playback_tests"] = [x for x in tests if x["kind"] != "cover"]
+        # witnesses of failed checks first; cover witnesses (inputs inside an interesting region) are
+        # kept as further candidates for the native replay
+        r["playback_tests"] = [x for x in tests if x["kind"] != "cover"] + [x for x in tests if x["kind"] == "cover"]
         if r["playback_tests"]:
             r["concrete_vals"] = r["playback_tests"][0]["vals"]
     if build_failed:
